@@ -128,6 +128,20 @@ CHECKS = {
             "DESIGN.md 3/C20"),
 }
 
+CHECKS["C03"] = (
+    "validity predicate over generated inputs: repository corpora, template-generated valid programs and Hypothesis-chosen byte-level "
+    "mutants of both, alone and as multi-file projects, lowered by the real frontend; atheris (libFuzzer) coverage-guided campaigns in the thorough tier",
+    "Every source file of the seven frontends under <repo>/tests, ~1400 programs composed from ~900 grammar-checked templates, ~6300 "
+    "byte-level mutants (delete/insert/transpose/truncate/line operations/splice) and ~360 multi-file projects per quick run (thorough: "
+    "~340k Hypothesis cases + 7 x 60000 atheris runs) are lowered through GIRParser.deal_with_file_unit (projects also through the real "
+    "`lang` sub-command); the emitted table must satisfy the four structural clauses of the property (unique ids / disjoint unit ranges, "
+    "balanced and properly nested block markers with textual parents, body attributes naming owned blocks, every executable statement in "
+    "exactly one method or class initialiser with %unit_init in source order) and no exception may escape.",
+    "Trusted base: the validity predicate harness/c03_wf.py (my reading of the four clauses; the body-attribute converse is checked for the "
+    "attribute names that are bodies in every producer); source order is checked on generated programs through unique 9xxxx literals. "
+    "C++/C# grammars are empty on this image.",
+    "DESIGN.md 3/C03")
+
 NOT_YET = {}
 
 
@@ -155,7 +169,9 @@ def main():
                                    "reason": NOT_YET.get(pid, "check designed (DESIGN.md section 3) but not yet registered in this revision; no claim is made")})
     manifest = {
         "version": 1,
-        "setup_cmd": "/venv/bin/pip install --no-index --find-links /opt/veriftools/wheels hypothesis >/dev/null 2>&1; /venv/bin/python -c 'import hypothesis, lian'",
+        "setup_cmd": "/venv/bin/pip install --no-index --find-links /opt/veriftools/wheels hypothesis >/dev/null 2>&1; "
+                     "/venv/bin/pip install --no-index --find-links /opt/veriftools/wheels --target .deps atheris >/dev/null 2>&1; "
+                     "/venv/bin/python -c 'import hypothesis, lian'",
         "hooks": {
             "guard": "LIAN_VERIF",
             "enable": "no source hooks: all instrumentation is applied from the harness process (function wrapping, configuration constants); checks import lian from /repo/src",
